@@ -69,13 +69,20 @@ FamDef(f) ==
           consts |-> << <<"plain", QF(3, 2)>>, <<"magic0", QF(-1, 2)>> >>,
           pts1 |-> <<R(-3, 4), R(1, 2), R(5, 4)>>, pts2 |-> <<R(1, 4), R(-2, 1)>>]
     [] f = "explog" ->
-         [un |-> {"Exp", "Log", "Log1p", "Log1pExp", "Logistic", "Sigmoid"}, bin |-> {"Mul", "Sub"},
+         [un |-> {"Exp", "Log", "Log1p"}, bin |-> {"Mul", "Sub", "Div"},
           par |-> {}, red |-> {}, un1 |-> {}, bin1 |-> {}, cap |-> 3,
           consts |-> << <<"const", QF(1, 2)>>, <<"magic0", QI(2)>> >>,
-          \* Log1pExp thresholds -37, 18, 33.3 with a point on either side; Sigmoid sign split at 0
-          pts1 |-> <<R(-38, 1), R(-37, 1), R(-73, 2), R(-1, 2), R(0, 1), R(1, 2), R(3, 2), R(35, 2), R(18, 1),
-                     R(37, 2), R(20, 1), R(33, 1), R(333, 10), R(67, 2), R(34, 1)>>,
-          pts2 |-> <<R(1, 2), R(-3, 4)>>]
+          pts1 |-> <<R(-1, 2), R(0, 1), R(1, 2), R(3, 2), R(5, 1)>>, pts2 |-> <<R(1, 2), R(-3, 4)>>]
+    [] f = "softplus" ->
+         \* Log1pExp has thresholds at -37, 18 and 33.3 (four formulas), Sigmoid splits at 0:
+         \* a ladder of points across all pieces, each threshold with a point on either side
+         [un |-> {"Log1pExp", "Logistic", "Sigmoid"}, bin |-> {"Sub"},
+          par |-> {}, red |-> {}, un1 |-> {}, bin1 |-> {}, cap |-> 2,
+          consts |-> << <<"plain", QF(1, 2)>>, <<"magic0", QI(-2)>> >>,
+          pts1 |-> <<R(-38, 1), R(-37, 1), R(-73, 2), R(-20, 1), R(-5, 1), R(-1, 2), R(0, 1), R(1, 2), R(3, 2),
+                     R(5, 1), R(9, 1), R(13, 1), R(35, 2), R(18, 1), R(37, 2), R(20, 1), R(25, 1), R(33, 1),
+                     R(333, 10), R(67, 2), R(34, 1)>>,
+          pts2 |-> <<R(1, 2), R(-3, 1)>>]
     [] f = "special" ->
          [un |-> {"Erf", "Erfc", "LogErfc", "Gamma", "Lgamma"}, bin |-> {"Mul", "Add"}, par |-> {}, red |-> {},
           un1 |-> {}, bin1 |-> {}, cap |-> 3,
